@@ -247,6 +247,17 @@ inductive ImplStep (g : Grammar) (s : List Char) (p : P) (nd : Node) (pre : Nat)
       ScanReach p s.length e failOn ignorer (s.length + 2) pre (k + 1) tmploc → tmploc ≤ s.length →
       failOnCheck p failOn tmploc = some false → ignStep p s.length ignorer tmploc = .inr t →
       ImplStep g s p nd pre acts .plain e t false false
+  /-- Or: the alternative with the longest trial match, parsed again for real after the trial pass -/
+  | orBest {es loc2 a l1 e rest} : nd.kind = .or es →
+      (if es.all (callPreOf g) then preParse p nd s pre else PreR.at pre) = .at loc2 →
+      orPass1 p (nameLenOf g) s.length loc2 es {} = some a → sortDesc a.cands = (l1, e) :: rest →
+      ImplStep g s p nd pre acts .plain e loc2 acts true
+  /-- Or: an ignore-expression run by the pre-parse Or.parseImpl does itself (4268-4274) -/
+  | orIgnore {es ie il} : nd.kind = .or es → es.all (callPreOf g) = true → nd.ignore.isEmpty = false →
+      IgnCall p s.length nd.ignore pre ie il → ImplStep g s p nd pre acts .plain ie il true true
+  /-- StringStart: an ignore-expression run by `self.preParse(instring, 0)` (3759-3764) -/
+  | stringStartIgnore {ie il} : nd.kind = .stringStart → pre ≠ 0 → nd.ignore.isEmpty = false →
+      IgnCall p s.length nd.ignore 0 ie il → ImplStep g s p nd pre acts .plain ie il true true
   /-- SkipTo(include=True): the target parsed again, with actions, where the scan found it -/
   | skipInclude {e failOn ignorer t} : nd.kind = .skipTo e true failOn ignorer →
       PP.Parse.skipScan p s.length e failOn ignorer pre (s.length + 2) pre = .inr t →
@@ -343,6 +354,28 @@ theorem implStep_fail {g : Grammar} {s : List Char} {p : P} {nd : Node} {pre : N
       rw [if_neg (by omega)]
       cases c <;> simp [Exc.isFatal] at hfat <;> rfl
     unfold parseImpl; simp [hk, skipToImpl, hsc, Tag.app]
+  | @orBest es l' a l1 e rest hk hpre h1 hsort =>
+    have hfat := hcf (by simp)
+    have hne : a.cands.isEmpty = false := by
+      cases hc' : a.cands with
+      | nil => rw [hc'] at hsort; simp [sortDesc] at hsort
+      | cons x xs => rfl
+    have hor : orAt p (nameLenOf g) s.length acts es l' = .fail c l := by
+      cases acts with
+      | false => simp [orAt, h1, hne, hsort, hf]
+      | true =>
+        have : orPass2 p l' ((l1, e) :: rest) none a.mx = .inl (.fail c l) := by
+          cases c <;> simp [Exc.isFatal] at hfat <;> simp [orPass2, orPass2.orStep, hf]
+        simp [orAt, h1, hne, hsort, this]
+    unfold parseImpl; simp only [hk, orImpl, hpre, hor, Tag.app]
+  | @orIgnore es ie il hk hall hne hig =>
+    have hfat := hcf (by simp)
+    have := preParse_fatal (by intro x y h; rw [hk] at h; cases h) hne hig c l hf hfat
+    unfold parseImpl; simp only [hk, orImpl, hall, if_true, this, Tag.app]
+  | @stringStartIgnore ie il hk hp0 hne hig =>
+    have hfat := hcf (by simp)
+    have := preParse_fatal (by intro x y h; rw [hk] at h; cases h) hne hig c l hf hfat
+    unfold parseImpl; simp [hk, hp0, this, Tag.app]
   | @skipInclude e failOn ignorer t hk hsc =>
     unfold parseImpl; simp [hk, skipToImpl, hsc, hf, Tag.app]
 
